@@ -38,7 +38,6 @@ AllBodies2 == SeqsUpTo(Shapes, 2)
 AllBodies3 == SeqsUpTo(Shapes, 3)
 ContentBodies2 == [i \in 1..3 |-> IF i = 1 THEN AllBodies2 ELSE {<<"x">>}]
 ContentBodies3 == [i \in 1..3 |-> IF i = 1 THEN AllBodies3 ELSE {<<"x">>}]
-PairBodies == [i \in 1..3 |-> IF i <= 2 THEN SeqsUpTo(Shapes, 1) \cup {<<"dot", "dot">>, <<"x", "empty">>} ELSE {<<"x">>}]
 SimBodies == <<SeqsUpTo(Shapes, 1) \cup {<<"dot", "x">>, <<"x", "dot">>, <<"dotx", "empty">>, <<"dotdot", "dot", "x">>},
                {<<"x">>, <<"dot">>, <<"empty", "dotx">>}, {<<>>, <<"dotdot">>, <<"x", "x">>},
                {<<"dotx">>, <<"x", "empty", "dot">>}, {<<"dot", "dot">>, <<"x">>}, {<<"x">>}>>
